@@ -298,7 +298,12 @@ var $newType = (size, kind, string, named, pkg, exported, constructor) => {
                             if (v.$val === undefined) {
                                 v = new f.typ(v);
                             }
-                            return v[m.prop](...args);
+                            $stackDepthOffset--; /* invisible to recover(), like $methodExpr */
+                            try {
+                                return v[m.prop](...args);
+                            } finally {
+                                $stackDepthOffset++;
+                            }
                         };
                     };
                     fields.forEach(f => {
